@@ -727,7 +727,10 @@ class Model:
                 return [], 'ext-typed:%s.%s' % (ext[0], f.attr), 0
             # layer 3
             ch = self.cha(f.attr) if f.attr not in CONTAINER_METHODS else []
-            if ch and isinstance(f.value, ast.Attribute) and isinstance(f.value.value, ast.Name) and f.value.value.id == 'self':
+            recv = f.value
+            while isinstance(recv, ast.Subscript):
+                recv = recv.value           # an element of a table held by self (self.portfolios[pid].method()): same rule as the field itself
+            if ch and isinstance(recv, ast.Attribute) and isinstance(recv.value, ast.Name) and recv.value.id == 'self':
                 return ch, 'cha', 3
             return [], 'untyped-attr:' + f.attr, 0
         tg = self._callable_targets(fn, f, env)
